@@ -16,7 +16,8 @@ THEOREMS = ["C01_padded_tokens", "C01_row_tokens", "C01_wrap_tokens", "C01_wrap_
 ASSUMPTIONS = [
     "oracle: `fmt % x` prints x correctly rounded to the digits the format asks for, float(text) is the correctly rounded double; "
     "so the recovered sample float(fmt % x) is within half a unit of the last printed digit (plus the final binary rounding)",
-    "a finite sample whose printed text is numerically the NULL value is the null marker on disk (excluded from the domain)",
+    "a finite NON-INDEX sample whose printed text is numerically the NULL value is the null marker on disk (such a cell is "
+    "re-drawn by the generator); INDEX samples that print as the NULL value are inside the domain and are generated on purpose",
     "textwrap.TextWrapper as modelled in PyLib/TextWrap.v (validated on every generated row)",
 ]
 
@@ -50,7 +51,47 @@ def fields_per_line(width, fieldlen):
     return max(1, width // fieldlen)
 
 
-def gen_case(rng):
+# (NULL item text as it stands in the file that is read first; the writer prints str() of the value read from it)
+NULLS = ["-999.25", "-999.25", "-999.25", "0", "-9999", "-9999.0", "-999.2500", "999", "-1", "1e30", "0.0", "100.5"]
+
+
+def prints_as(fmt, x, nullv):
+    try:
+        return float(fmt % x) == nullv
+    except ValueError:
+        return False
+
+
+def gen_case(rng, vary_null=True):
+    c = _gen_case(rng)
+    if not vary_null:
+        return c + (NULL,)
+    nc, nr, rows, nan_pos, wkw = c
+    null = rng.choice(NULLS)
+    nullv = float(null)
+    fm = lambda j: wkw["column_fmt"].get(j, wkw["fmt"])
+    # non-index cells: a finite sample that would print as NULL is re-drawn (it IS the null marker on disk)
+    for i in range(nr):
+        for j in range(1, nc):
+            for _ in range(30):
+                if (i, j) in nan_pos or not (prints_as(fm(j), rows[i][j], nullv) or rows[i][j] == nullv):
+                    break
+                rows[i][j] = rand_float(rng)
+            else:
+                nan_pos.add((i, j))
+    # index cells: forced to print as NULL ("index samples are never nulled")
+    k = rng.random()
+    if k < 0.45:
+        cand = [nullv, nullv, nullv + abs(nullv) * 1e-13 + 1e-13, nullv - abs(nullv) * 1e-13 - 1e-13,
+                float(np.nextafter(nullv, math.inf)), float(np.nextafter(nullv, -math.inf))]
+        which = [0] if k < 0.15 else [nr - 1] if k < 0.25 else list(range(nr)) if k < 0.3 else \
+            [i for i in range(nr) if rng.random() < 0.4] or [rng.randrange(nr)]
+        for i in which:
+            rows[i][0] = rng.choice(cand)
+    return nc, nr, rows, nan_pos, wkw, null
+
+
+def _gen_case(rng):
     nc = rng.choice(list(range(1, 41)) + [7, 14, 21, 28, 35, 6, 12, 18])
     nr = rng.choice([1, 1, 2, 3, 5, 20, 21, 22])
     if nc * nr > 160:
@@ -82,10 +123,10 @@ def gen_case(rng):
 NULL = "-999.25"
 
 
-def in_domain(nc, nr, rows, nan_pos, wkw):
-    """spacing guarantees that tokens are separated; no finite sample prints as NULL"""
+def in_domain(nc, nr, rows, nan_pos, wkw, NULL=NULL):
+    """spacing guarantees that tokens are separated; no finite NON-INDEX sample prints as NULL"""
     fm = lambda j: wkw["column_fmt"].get(j, wkw["fmt"])
-    toks = [[(NULL if (i, j) in nan_pos else fm(j) % rows[i][j]) for j in range(nc)] for i in range(nr)]
+    toks = [[(str(tonum(NULL)) if (i, j) in nan_pos else fm(j) % rows[i][j]) for j in range(nc)] for i in range(nr)]
     lnf = wkw["len_numeric_field"]
     if lnf is None:
         lnf = 10
@@ -106,7 +147,15 @@ def in_domain(nc, nr, rows, nan_pos, wkw):
     return True
 
 
-def build_text(nc, nr, rows, nan_pos):
+def tonum(null):
+    """the value lasio's reader gives the NULL item (int literal -> int, else float); the writer prints str() of it"""
+    try:
+        return int(null)
+    except ValueError:
+        return float(null)
+
+
+def build_text(nc, nr, rows, nan_pos, NULL=NULL):
     """A LAS text whose reading gives exactly these float64 samples (repr round-trips)."""
     s = lasgen.Spec()
     s.version = "2.0"
@@ -170,19 +219,19 @@ def run(ctx):
     n = 3000 if ctx.thorough else 130
     cases, meta, kinds = [], [], set()
     hist = {"wrapped": 0, "multiple_of_fields_per_line": 0, "nan_cells": 0, "lnf_-1": 0, "tab_spacer": 0, "mnemonics_header": 0,
-            "out_of_domain_skipped": 0, "huge_or_tiny": 0}
+            "out_of_domain_skipped": 0, "huge_or_tiny": 0, "null_not_-999.25": 0, "null_integer": 0, "null_zero": 0,
+            "index_prints_as_null_cases": 0, "index_prints_as_null_cells": 0}
     tried = 0
     while len(meta) < n and tried < 20 * n:
         tried += 1
-        nc, nr, rows, nan_pos, wkw = gen_case(rng)
-        if not in_domain(nc, nr, rows, nan_pos, wkw):
+        nc, nr, rows, nan_pos, wkw, null = gen_case(rng)
+        if not in_domain(nc, nr, rows, nan_pos, wkw, null):
             hist["out_of_domain_skipped"] += 1
             continue
-        text0 = build_text(nc, nr, rows, nan_pos)
+        text0 = build_text(nc, nr, rows, nan_pos, null)
         bad, t1 = oracle(nc, nr, rows, nan_pos, wkw, text0)
         if bad:
-            res.oracle_violations.append({"payload": {"nc": nc, "nr": nr, "rows": [[float(x).hex() for x in r] for r in rows],
-                                                      "nan": sorted(nan_pos), "wkw": wkw}, "what": bad})
+            res.oracle_violations.append({"payload": payload_of(nc, nr, rows, nan_pos, wkw, null), "what": bad})
         eng = rng.choice(["numpy", "normal"])
         ops = [("R", {"engine": "normal"}), ("W", wkw), ("R", {"engine": eng})]
         c, r = wm.coq_case(text0, ops)
@@ -191,6 +240,12 @@ def run(ctx):
         lnf = wkw["len_numeric_field"] or 11
         kinds.add((nc, min(nr, 3), wkw["version"], wkw["wrap"], wkw["fmt"], bool(wkw["column_fmt"]), wkw["len_numeric_field"],
                    wkw["spacer"], wkw["lhs_spacer"], wkw["data_width"], wkw["mnemonics_header"]))
+        n_idx_null = sum(1 for i in range(nr) if prints_as(wkw["column_fmt"].get(0, wkw["fmt"]), rows[i][0], float(null)))
+        hist["null_not_-999.25"] += float(null) != -999.25
+        hist["null_integer"] += isinstance(tonum(null), int)
+        hist["null_zero"] += float(null) == 0
+        hist["index_prints_as_null_cases"] += n_idx_null > 0
+        hist["index_prints_as_null_cells"] += n_idx_null
         hist["wrapped"] += wkw["wrap"]
         hist["multiple_of_fields_per_line"] += wkw["wrap"] and lnf > 0 and nc % fields_per_line(wkw["data_width"], lnf + 1) == 0
         hist["nan_cells"] += len(nan_pos)
@@ -212,7 +267,9 @@ def run(ctx):
     res.distinct_nontrivial = len(kinds)
     res.rule = ("LASFiles with 1..40 float curves (every multiple of the fields-per-line count forced), rows in {1,2,3,5,20,21,22}, "
                 "samples over the whole float64 range (integers, decimals, 1e-300..1e300, denormals, max, random bit patterns), NaN at "
-                "non-index positions; written with random (version, wrap, fmt, column_fmt, len_numeric_field, spacer, lhs_spacer, "
+                "non-index positions; NULL value drawn from {-999.25, 0, -9999, -9999.0, -999.2500, 999, -1, 1e30, 0.0, 100.5} and in "
+                "45 % of the files one/several/all INDEX samples chosen so that they print numerically equal to NULL (they must "
+                "come back as numbers); written with random (version, wrap, fmt, column_fmt, len_numeric_field, spacer, lhs_spacer, "
                 "data_width, mnemonics_header, data_section_header) and read back with both engines; non-trivial = distinct "
                 "(curve count, rows class, option tuple)")
     res.samples = [repr(meta[0][1][1][1]), repr(meta[-1][1][1][1])]
@@ -220,12 +277,17 @@ def run(ctx):
     return res
 
 
+def payload_of(nc, nr, rows, nan_pos, wkw, null):
+    return {"nc": nc, "nr": nr, "rows": [[float(x).hex() for x in r] for r in rows], "nan": sorted(nan_pos), "wkw": wkw,
+            "null": null}
+
+
 def replay(payload):
     rows = [[float.fromhex(x) for x in r] for r in payload["rows"]]
     nan_pos = {tuple(x) for x in payload["nan"]}
     wkw = dict(payload["wkw"])
     wkw["column_fmt"] = {int(k): v for k, v in (wkw.get("column_fmt") or {}).items()}
-    text0 = build_text(payload["nc"], payload["nr"], rows, nan_pos)
+    text0 = build_text(payload["nc"], payload["nr"], rows, nan_pos, payload.get("null", NULL))
     bad, _ = oracle(payload["nc"], payload["nr"], rows, nan_pos, wkw, text0)
     return bad is not None, bad or "ok"
 
@@ -234,12 +296,11 @@ def search(ctx, res):
     import random
     rng = random.Random(ctx.seed + 21)
     for _ in range(5000):
-        nc, nr, rows, nan_pos, wkw = gen_case(rng)
-        if not in_domain(nc, nr, rows, nan_pos, wkw):
+        nc, nr, rows, nan_pos, wkw, null = gen_case(rng)
+        if not in_domain(nc, nr, rows, nan_pos, wkw, null):
             continue
-        text0 = build_text(nc, nr, rows, nan_pos)
+        text0 = build_text(nc, nr, rows, nan_pos, null)
         bad, _ = oracle(nc, nr, rows, nan_pos, wkw, text0)
         if bad:
-            yield {"payload": {"nc": nc, "nr": nr, "rows": [[float(x).hex() for x in r] for r in rows], "nan": sorted(nan_pos),
-                               "wkw": wkw}, "what": bad}
+            yield {"payload": payload_of(nc, nr, rows, nan_pos, wkw, null), "what": bad}
             return
